@@ -913,6 +913,27 @@ func runRange(c *lib.Ctx, cs caseT) {
 	for _, r := range cs.Rows {
 		byID[r.ID] = r
 	}
+	// window order: g, k in the requested direction, id
+	buf := append([]Rec(nil), cs.Rows...)
+	sort.SliceStable(buf, func(i, j int) bool {
+		a, b := buf[i], buf[j]
+		if a.G != b.G {
+			return a.G < b.G
+		}
+		if a.K.V != b.K.V {
+			if cs.RDesc {
+				return a.K.V > b.K.V
+			}
+			return a.K.V < b.K.V
+		}
+		return a.ID < b.ID
+	})
+	pos := map[int64]int{}
+	xs := make([]IV, len(buf))
+	for i, r := range buf {
+		pos[r.ID] = i
+		xs[i] = r.X
+	}
 	// the frame of row r by the definition: rows of the partition whose key lies in [key+lo, key+hi] in sort direction
 	sgn := int64(1)
 	if cs.RDesc {
@@ -933,26 +954,58 @@ func runRange(c *lib.Ctx, cs caseT) {
 		}
 		return fr
 	}
-	for fi, fn := range fns {
-		id := mkCaseNM(c, cs, fmt.Sprintf("%s|%s|%v", fn, frameSQL, cs.Rows))
-		c.Count("range_" + fn)
-		c.Count("frame_" + shape)
-		c.PredChecked()
-		if len(res.Rows) != len(cs.Rows) {
-			c.PredFail(id, "range/row-count", fmt.Sprintf("%s returned %d rows for %d", q, len(res.Rows), len(cs.Rows)), cs)
-			continue
-		}
+	coqFn := map[string]string{"SUM": "FSum", "COUNT": "FCount", "COUNT*": "FCountStar", "MAX": "FMax", "AVG": "FAvg"}
+	okRows := len(res.Rows) == len(cs.Rows)
+	observed := make([][]oval, len(fns))
+	for fi := range fns {
+		observed[fi] = make([]oval, len(buf))
+	}
+	if okRows {
 		for _, row := range res.Rows {
 			idv, ok := row[0].(int64)
-			r, known := byID[idv]
+			p, known := pos[idv]
 			if !ok || !known {
-				c.PredFail(id, "win/row-identity", fmt.Sprintf("%s returned a row with id %v", q, row[0]), cs)
+				okRows = false
 				break
 			}
-			fr := frameOf(r)
-			wv := refAgg(fn, fr)
-			o := obs(row[1+fi])
-			if !wv.matches(o) {
+			for fi := range fns {
+				observed[fi][p] = obs(row[1+fi])
+			}
+		}
+	}
+	for fi, fn := range fns {
+		if !okRows {
+			id := mkCaseNM(c, cs, "")
+			c.PredChecked()
+			c.PredFail(id, "win/row-identity", fmt.Sprintf("%s returned %d rows for %d, or a row with a foreign id", q, len(res.Rows), len(cs.Rows)), cs)
+			break
+		}
+		for ps := 0; ps < len(buf); {
+			pe := ps
+			for pe < len(buf) && buf[pe].G == buf[ps].G {
+				pe++
+			}
+			var pkeys []string
+			for _, r := range buf[ps:pe] {
+				pkeys = append(pkeys, lib.CoqZ(r.K.V))
+			}
+			term := fmt.Sprintf("CRange %s %s %s %d %d %s %s %s", coqFn[fn], coqIVs(xs), lib.CoqList(pkeys), ps, pe, cs.SB.Coq(), cs.EB.Coq(), coqOvals(observed[fi][ps:pe]))
+			key := ""
+			if pe-ps >= 2 {
+				key = fmt.Sprintf("%s|%s|%v|%d", fn, frameSQL, buf, ps)
+			}
+			id := mkCase(c, term, cs, key)
+			c.Count("range_" + fn)
+			c.Count("frame_" + shape)
+			c.PredChecked()
+			for i := ps; i < pe; i++ {
+				r := buf[i]
+				fr := frameOf(r)
+				wv := refAgg(fn, fr)
+				o := observed[fi][i]
+				if wv.matches(o) {
+					continue
+				}
 				sig := "range-" + strings.ToLower(fn) + "/wrong-value/" + shape
 				allNull := len(fr) > 0
 				for _, x := range fr {
@@ -970,9 +1023,10 @@ func runRange(c *lib.Ctx, cs caseT) {
 					sig = "win-avg/no-value-gives-nan"
 				}
 				c.PredFail(id, sig, fmt.Sprintf("%s(x) OVER (PARTITION BY g ORDER BY k%s %s): row id=%d (g=%d, k=%d) got %v, definition gives %v over frame %v; partition rows %v",
-					fn, dir, frameSQL, r.ID, r.G, r.K.V, o, wv, fr, cs.Rows), cs)
+					fn, dir, frameSQL, r.ID, r.G, r.K.V, o, wv, fr, buf[ps:pe]), cs)
 				break
 			}
+			ps = pe
 		}
 	}
 }
